@@ -215,7 +215,7 @@ func CmdCheck(args []string) int {
 		fmt.Fprintln(os.Stderr, "cannot load property definition:", err)
 		return 2
 	}
-	timeout := 20
+	timeout := 40
 	if *tier == "thorough" {
 		timeout = 120
 	}
